@@ -227,13 +227,21 @@ def report_check(ctx, rng, spec, gkind, tol, max_iter, ffp):
             v = movable[int(rng.integers(len(movable)))]
             kk = M.kind(v.pose)
             v.pose = M.mkpose(kk, gen.perturb(rng, kk, M.fl(v.pose), 0.3, 0.1))
+            ffp2 = ffp
+            if rng.random() < 0.5:
+                # the set of fixed vertices differs from the previous call too (another vertex marked fixed, or fix_first_pose switched)
+                others = [w for w in movable if w is not v]
+                if others and rng.random() < 0.5:
+                    others[int(rng.integers(len(others)))].fixed = True
+                else:
+                    ffp2 = not ffp
             now = gen.copy_spec(spec)
             now.pop("share", None)
             for sv, lv in zip(now["vertices"], g2._vertices):
                 sv["pose"] = M.fl(lv.pose)
                 sv["fixed"] = bool(lv.fixed)
             fresh = M.build(now)
-            kw2 = {"tol": tol, "max_iter": min(max_iter, 6), "fix_first_pose": ffp}
+            kw2 = {"tol": tol, "max_iter": min(max_iter, 6), "fix_first_pose": ffp2}
             try:
                 ra = M.quiet_optimize(g2, **kw2)
                 rb = M.quiet_optimize(fresh, **kw2)
